@@ -18,6 +18,7 @@ import MajoranaVerif.Model.Mvp60Class
 import MajoranaVerif.Model.Mvp61
 import MajoranaVerif.Model.Mvp62
 import MajoranaVerif.Model.Mvp63
+import MajoranaVerif.Model.Mvp70
 
 namespace Driver.Run
 
@@ -143,6 +144,29 @@ def m63Suffix (app : Model.Seq.App) (ctx : Model.Context) (spec : Spec.Result) :
     s!" m63p{k}={h},{cyc},{if same then "same" else "DIFF"},{r.ticks},{hex16 dig}"
   "".intercalate (m63Pars.map one)
 
+/-- which parallelisms (number of cores) of the MVP-7.0 model are evaluated: none in the quick tier (one core alone costs
++30 % on the memory-heavy streams: a single execute unit serialises the 309-cycle misses), 1..4 under `VERIF_TIER=thorough`;
+`VERIF_M70=all|p1|p2|none` overrides -/
+initialize m70Pars : List Nat ← do
+  let tier ← IO.getEnv "VERIF_TIER"
+  let opt ← IO.getEnv "VERIF_M70"
+  return if opt == some "none" then [] else if opt == some "p1" then [1] else if opt == some "p2" then [1, 2]
+    else if tier == some "thorough" || opt == some "all" then [1, 2, 3, 4] else []
+
+/-- the cycle-accurate model of MVP-7.0 (`Model.Mvp70`) with K cores, in the format of `m63Suffix`:
+` m70pK=<halt>,<cycles>,<same|DIFF>,<ticks>,<digest of final registers and memory>` -/
+def m70Suffix (app : Model.Seq.App) (ctx : Model.Context) (spec : Spec.Result) : String :=
+  let fuel := 32 * Gen.Latency.MemoryAccess.toNat * (spec.steps + 64)
+  let one (k : Nat) : String :=
+    let r := Model.Mvp70.run app ctx k fuel
+    let fr := (List.range 32).map fun j => GoInt.GoMap.get1 r.final.base.ctx.Registers j
+    let same := fr == spec.final.regs.toList && r.final.base.ctx.Memory == spec.final.mem.toList
+    let cyc := match r.halt with | some .err => 0 | _ => r.final.base.cycles
+    let dig := fnvStr (",".intercalate (fr.map showI32) ++ ";" ++ hex16 (fnv64 r.final.base.ctx.Memory.toArray))
+    let h := if Model.Mvp70.isMapOrder r then "maporder" else showHalt r.halt
+    s!" m70p{k}={h},{cyc},{if same then "same" else "DIFF"},{r.ticks},{hex16 dig}"
+  "".intercalate (m70Pars.map one)
+
 /-- the cycle-accurate models of MVP-1 and MVP-2 on the same case: how the run ends, the cycle count,
 and whether the final registers and memory equal the specification's (`same`/`DIFF`) -/
 def seqModels (progBytes : List UInt8) (regs : Array (BitVec 32)) (mem : Array (BitVec 8)) (fuel : Nat)
@@ -169,7 +193,7 @@ def seqModels (progBytes : List UInt8) (regs : Array (BitVec 32)) (mem : Array (
       let same := fr == spec.final.regs.toList && r.final.ctx.Memory == spec.final.mem.toList
       let cyc := match r.halt with | some .err => 0 | _ => r.final.cycles
       s!"{showHalt r.halt},{cyc},{r.final.executed},{if same then "same" else "DIFF"}"
-    s!"m1={one (Model.Seq.runMvp1 app ⟨ctx, 0⟩ fuel)} m2={one (Model.Seq.runMvp2 app ⟨ctx, 0⟩ fuel)} m3={one (Model.Mvp3.runMvp3 app ⟨ctx, 0⟩ fuel).toSeq} h3={if Model.Mvp3.wfAccesses app ⟨ctx, 0⟩ fuel then 1 else 0} m4={one4 (Model.Mvp4.run app ctx (32 * Gen.Latency.MemoryAccess.toNat * (spec.steps + 64)))} m5={one5 (Model.Mvp5.run app ctx (32 * Gen.Latency.MemoryAccess.toNat * (spec.steps + 64)))}{m60Suffix app ctx spec}{m61Suffix app ctx spec}{m62Suffix app ctx spec}{m63Suffix app ctx spec}"
+    s!"m1={one (Model.Seq.runMvp1 app ⟨ctx, 0⟩ fuel)} m2={one (Model.Seq.runMvp2 app ⟨ctx, 0⟩ fuel)} m3={one (Model.Mvp3.runMvp3 app ⟨ctx, 0⟩ fuel).toSeq} h3={if Model.Mvp3.wfAccesses app ⟨ctx, 0⟩ fuel then 1 else 0} m4={one4 (Model.Mvp4.run app ctx (32 * Gen.Latency.MemoryAccess.toNat * (spec.steps + 64)))} m5={one5 (Model.Mvp5.run app ctx (32 * Gen.Latency.MemoryAccess.toNat * (spec.steps + 64)))}{m60Suffix app ctx spec}{m61Suffix app ctx spec}{m62Suffix app ctx spec}{m63Suffix app ctx spec}{m70Suffix app ctx spec}"
 
 /-- `run id ; family=.. fuel=N memsize=M ; regs=r:v,.. ; mem=<hex> ; prog=<hex>` -/
 def run (line : String) : String :=
